@@ -10,6 +10,7 @@ package nbio
 import (
 	"encoding/binary"
 	"errors"
+	"io"
 	"net"
 	"runtime"
 	"sync"
@@ -144,6 +145,9 @@ type Conn struct {
 	jobList []func()
 
 	readEvents int32
+	// set when the peer has shut down its sending side and the
+	// asynchronous read task has to close the connection at the end of the stream.
+	readEOF int32
 
 	dataHandler func(c *Conn, data []byte)
 
@@ -191,6 +195,11 @@ func (c *Conn) AsyncRead() {
 				if n < bufLen && !c.IsUDP() {
 					break
 				}
+			}
+			if atomic.LoadInt32(&c.readEOF) != 0 {
+				c.readToEOF(pbuf)
+				_ = c.closeWithError(io.EOF)
+				return
 			}
 			c.ResetPollerEvent()
 		})
@@ -245,11 +254,39 @@ func (c *Conn) AsyncRead() {
 					break
 				}
 			}
+			if atomic.LoadInt32(&c.readEOF) != 0 {
+				c.readToEOF(pBuf)
+				_ = c.closeWithError(io.EOF)
+				return
+			}
 			if atomic.AddInt32(&c.readEvents, -1) == 0 {
 				return
 			}
 		}
 	})
+}
+
+// readToEOF delivers what the peer sent before it shut down its sending
+// side: it reads until the end of the stream or an error.
+//
+//go:norace
+func (c *Conn) readToEOF(pbuf *[]byte) {
+	bufLen := len(*pbuf)
+	defer func() { *pbuf = (*pbuf)[:bufLen] }()
+	for {
+		*pbuf = (*pbuf)[:bufLen]
+		rc, n, err := c.ReadAndGetConn(pbuf)
+		if n > 0 {
+			*pbuf = (*pbuf)[:n]
+			c.p.g.onDataPtr(rc, pbuf)
+		}
+		if errors.Is(err, syscall.EINTR) {
+			continue
+		}
+		if n <= 0 || err != nil {
+			return
+		}
+	}
 }
 
 // Read .
